@@ -159,7 +159,7 @@ func (c *Conn) do(op, q string, args []any) *Entry {
 		return e
 	}
 	e.Stmt = st
-	if (op == "query") != (st.Verb == VSelectVer || st.Verb == VSelectSet || st.Verb == VShowTables || st.Verb == VSelectCount || st.Verb == VSelectVerAll) {
+	if (op == "query") != (st.Verb == VSelectVer || st.Verb == VSelectSet || st.Verb == VShowTables || st.Verb == VSelectCount || st.Verb == VSelectVerAll || st.Verb == VSelectVerLast) {
 		c.Unmodelled = append(c.Unmodelled, op+" of "+st.Verb)
 		e.Err = &Unmodelled{op + " of " + st.Verb}
 		return e
@@ -224,6 +224,20 @@ func (c *Conn) answer(s *Stmt) ([]any, error) {
 			return nil, e
 		}
 		return []any{v}, nil
+	case VSelectVerLast:
+		pairs, e := c.Cat.VerAll(c.Cat.qual(s.Name, c.DB))
+		if e != nil {
+			if e.Code < 0 {
+				return nil, &Unmodelled{e.Message}
+			}
+			return nil, e
+		}
+		for _, p := range pairs {
+			if fmt.Sprint(p[0]) == s.Arg {
+				return []any{p[1]}, nil
+			}
+		}
+		return nil, nil
 	case VSelectVerAll:
 		pairs, e := c.Cat.VerAll(c.Cat.qual(s.Name, c.DB))
 		if e != nil {
